@@ -15,6 +15,10 @@ import (
 const (
 	// HeaderSizeLen is the length in bytes of the SnapshotHeader length prefix.
 	HeaderSizeLen = 4
+
+	// SnapshotFormatVersion is the format version written to, and required
+	// of, every SnapshotHeader.
+	SnapshotFormatVersion = 1
 )
 
 // NewHeaderFromFile creates a new Header for the given file path. If crc32 is true,
@@ -74,7 +78,7 @@ func NewChecksummedSnapshotHeader(dbFile *ChecksummedFile, walFiles ...*Checksum
 	}
 
 	sh := &proto.SnapshotHeader{
-		FormatVersion: 1,
+		FormatVersion: SnapshotFormatVersion,
 	}
 
 	dbHeader, err := NewHeaderFromChecksummedFile(dbFile)
@@ -104,7 +108,7 @@ func NewSnapshotHeader(dbPath string, walPaths ...string) (*proto.SnapshotHeader
 	}
 
 	sh := &proto.SnapshotHeader{
-		FormatVersion: 1,
+		FormatVersion: SnapshotFormatVersion,
 	}
 
 	dbHeader, err := NewHeaderFromFile(dbPath, true)
@@ -133,7 +137,7 @@ func NewIncrementalFileSnapshotHeader(walDirPath string) (*proto.SnapshotHeader,
 		return nil, fmt.Errorf("walDirPath must be non-empty")
 	}
 	return &proto.SnapshotHeader{
-		FormatVersion: 1,
+		FormatVersion: SnapshotFormatVersion,
 		Payload: &proto.SnapshotHeader_IncrementalFile{
 			IncrementalFile: &proto.IncrementalFileSnapshot{
 				WalDirPath: walDirPath,
